@@ -16,6 +16,7 @@ RULE = (
     "and test screens from {reveal(any unobserved ids, any order), mask, unmask, save+load, reveal_plate CLI}; half of the saves go to a path that already holds the archive of another prepared simulation (same names, same table shapes, ids reversed). After each step: name->id functions and both "
     "mappings equal the parent's, predictions of a posterior sample sized by the parent's space equal those computed with the parent's ids. Non-trivial = "
     "history has >=1 reveal/mask/unmask on a stage whose rows do not cover the parent's mapping. distinct = distinct case JSON."
+    ' Also: fixed boundary-size simulations (2**8, 2**15, 2**16 (+60) sample names or conditions, the last names in held-out experiments only).'
 )
 ASSUMPTIONS = [
     "the prepared simulation is the pair returned by the hold-out split of the parent; stored values are in (0,1] so reveals are accepted",
@@ -70,6 +71,34 @@ def strategy(tier):
     return _case()
 
 
+def exhaustive(tier):
+    # simulations whose name tables cross 2**8, 2**15, 2**16 entries while the last names (the highest ids) occur in held-out
+    # experiments only: the training screen's rows then stay below the boundary, its mappings do not
+    sizes = [(a, n) for n in (2**8, 2**15, 2**16) for a in ("samples", "treatments")] if tier != "quick" else [("samples", 2**8), ("treatments", 2**8), ("samples", 2**16), ("treatments", 2**15)]
+    for axis, n in sizes:
+        ops = [{"op": "saveload", "stage": "train", "picks": [1]}, {"op": "reveal", "stage": "train", "picks": [1]}, {"op": "saveload", "stage": "test", "picks": [1]}, {"op": "mask", "stage": "train", "picks": [1]}, {"op": "saveload", "stage": "train", "picks": [3]}]
+        yield {"big": {"axis": axis, "n": n + 60, "tail": 100}, "fraction": 1.0, "seed": n, "ops": ops, "theta": {"kind": "additive", "alpha": 0.1, "precision": 2.0}}
+
+
+def _big_parent(g):
+    """n distinct sample names (or n distinct (treatment, dose) conditions), one experiment each; the last `tail` of them (the highest
+    ids) sit on unobserved plates only, a third of the others on the observed plate"""
+    from batchie.data import Screen
+
+    n, tail = g["n"], g["tail"]
+    i = np.arange(n)
+    plates = np.where((i % 3 == 0) & (i < n - tail), "observed", np.char.add("u", (i % 4).astype(str)))
+    if g["axis"] == "samples":
+        samples = np.array(["s%06d" % k for k in i])
+        tn = np.stack([np.array(["t%d" % (k % 5) for k in i]), np.array(["t%d" % ((k + 1 + k // 5 % 4) % 5) for k in i])], axis=1)
+        td = np.stack([np.full(n, 1.0), np.where(i % 7 == 0, 0.0, 2.0)], axis=1)
+    else:
+        samples = np.array(["s%d" % (k % 4) for k in i])
+        tn = np.stack([np.array(["t%06d" % (k // 2) for k in i]), np.full(n, "ctl")], axis=1)
+        td = np.stack([1.0 + (i % 2), np.zeros(n)], axis=1)
+    return Screen(treatment_names=tn, treatment_doses=td, observations=0.2 + 0.6 * ((i * 7919) % 1000) / 1000.0, observation_mask=plates == "observed", sample_names=samples, plate_names=plates, control_treatment_name="ctl")
+
+
 def _functions(s):
     f_s, f_t = {}, {}
     for name, i in zip(s.sample_names, s.sample_ids):
@@ -110,7 +139,7 @@ def check_case(case):
     from batchie.data import ExperimentSpace, Screen
     from batchie.retrospective import create_plate_balanced_holdout_set_among_masked_plates, mask_screen, reveal_plates, unmask_screen
 
-    sc = case["screen"]
+    sc = case["screen"] if "big" not in case else {"control": "ctl"}
     if case.get("names"):
         pools = {"prefix": ["1", "11", "10", "2", "100", "3", "1000", "20"], "case": ["a", "A", "aa", "Aa", "b", "B", "ab", "aB"]}[case["names"]]
         off = case["seed"] % len(pools)
@@ -121,7 +150,7 @@ def check_case(case):
     if case.get("control_name"):
         old_ctl, new_ctl = sc["control"], case["control_name"]
         sc = dict(sc, control=new_ctl, rows=[dict(r, t=[new_ctl if t == old_ctl else t for t in r["t"]]) for r in sc["rows"]])
-    parent = S.build_screen(sc)
+    parent = S.build_screen(sc) if "big" not in case else _big_parent(case["big"])
     pf_s, pf_t = _functions(parent)
     p_tm, p_sm = parent.treatment_mapping, parent.sample_mapping
     space = ExperimentSpace.from_screen(parent)
@@ -261,7 +290,9 @@ def check_case(case):
                 nontrivial = True
     finally:
         tmp.cleanup(*paths)
-    labels = ["fraction=%s" % case["fraction"], "prepared-by-cli" if case.get("via_cli") else "random-holdout" if case.get("random_split") else "plate-balanced-holdout"]
+    if "big" in case:
+        nontrivial = True
+    labels = (["big:%s>=2^%d" % (case["big"]["axis"], (case["big"]["n"] - 60).bit_length() - 1)] if "big" in case else []) + ["fraction=%s" % case["fraction"], "prepared-by-cli" if case.get("via_cli") else "random-holdout" if case.get("random_split") else "plate-balanced-holdout"]
     if uncovered["train"]:
         labels.append("train-rows-do-not-cover-mapping")
     if uncovered["test"]:
